@@ -155,6 +155,10 @@ class ThreadSim:
         finally:
             sys.settrace(None)
             self.done[wid] = True
+            # this segment ended because the worker ran to completion (not because it was parked
+            # at its n-th line event): the replay scheduler must let it finish, too
+            if self.schedule and self.schedule[-1][0] == wid and len(self.schedule[-1]) == 2:
+                self.schedule[-1].append('fin')
             self.stack_fns[wid] = frozenset()
             rest = self.runnable()
             if rest:
@@ -183,13 +187,17 @@ class ThreadSim:
         return self
 
     def compact_schedule(self):
-        """Run-length list with empty segments merged away."""
+        """Run-length list [[worker, n_line_events(, 'fin')], ...] with adjacent segments of one
+        worker merged; 'fin' marks a segment at whose end the worker had finished."""
         out = []
-        for w, n in self.schedule:
-            if out and out[-1][0] == w:
+        for seg in self.schedule:
+            w, n = seg[0], seg[1]
+            if out and out[-1][0] == w and len(out[-1]) == 2:
                 out[-1][1] += n
             else:
                 out.append([w, n])
+            if len(seg) > 2:
+                out[-1] = [out[-1][0], out[-1][1], 'fin']
         return out
 
 
@@ -351,9 +359,10 @@ class FunctionAligned(_Base):
 
 
 class Replay(_Base):
-    """Follows a recorded run-length list [[worker, n_line_events], ...]: run `worker` for up to
-    n line events (or until it finishes), then the next entry. When the list is exhausted the
-    remaining workers run to completion in index order."""
+    """Follows a recorded run-length list [[worker, n_line_events(, 'fin')], ...]: park `worker`
+    at its n-th line event of the segment (or, for a 'fin' segment, let it run to completion),
+    then the next entry. When the list is exhausted the remaining workers run to completion in
+    index order."""
     name = 'replay'
 
     def __init__(self, schedule):
@@ -364,10 +373,12 @@ class Replay(_Base):
 
     def _next_entry(self, sim, exclude=None):
         while self.pos < len(self.sched):
-            w, n = self.sched[self.pos]
+            seg = self.sched[self.pos]
+            w, n = seg[0], seg[1]
             self.pos += 1
             if 0 <= w < sim.n and not sim.done[w] and w != exclude:
-                self.left = n
+                # a segment recorded as 'fin' ran until its worker finished
+                self.left = (1 << 60) if len(seg) > 2 else n
                 return w
         self.left = 1 << 60
         rest = sim.runnable(exclude=exclude)
